@@ -34,7 +34,9 @@ def dec(out):
 def run_mlr_cli(ctx, verbargs, recs):
     """end-to-end through the mlr command line (expensive: one process per case)"""
     argv = [a if isinstance(a, bytes) else a.encode("latin1") for a in SEPARGS + verbargs]
-    st, out, err = mlr_run(ctx, argv, enc(recs), timeout=60)
+    st, out, err = mlr_run(ctx, argv, enc(recs), timeout=120)
+    if st == "hang":            # a loaded machine, not a hang, until a long timeout says otherwise
+        st, out, err = mlr_run(ctx, argv, enc(recs), timeout=900)
     return st, (dec(out) if st == 0 else None), err
 
 
@@ -342,7 +344,28 @@ def mk_cases(ctx):
         ko, vo = gen_name(rng), gen_name(rng)
         return (["reshape", "-i", csv(fs), "-o", csv([ko, vo])], fs, [ko, vo], recs)
 
+    def g_fill_down():
+        recs = gen_stream(rng, homog=rng.random() < 0.3)
+        fs = gen_fields(rng, recs)
+        a = rng.random() < 0.4
+        return (["fill-down"] + ([rng.choice(["-a", "--only-if-absent"])] if a else []) + ["-f", csv(fs)], fs, [b"1" if a else b""], recs)
+
+    def g_fill_down_all():
+        recs = gen_stream(rng, homog=rng.random() < 0.5)
+        a = rng.random() < 0.3
+        return (["fill-down", "--all"] + (["-a"] if a else []), [], [b"1" if a else b""], recs)
+
+    def g_ssub():
+        # old texts that cannot occur in a number spelling, so that the verb's "strings only" rule never shows
+        recs = gen_stream(rng)
+        fs = gen_fields(rng, recs)
+        old = rng.choice([b"y", b";", b":", b"q", b"a;", b";;", b" ", b"_", b"N/A"])
+        new = rng.choice([b"", b"Z", b";", b"yy", old + old])
+        al = rng.random() < 0.4
+        return (["ssub"] + (["-a"] if al else ["-f", csv(fs)]) + [arg(old), arg(new)], fs, [old, new, b"1" if al else b""], recs)
+
     return [
+        ("fill-down", 30, g_fill_down), ("fill-down --all", 31, g_fill_down_all), ("ssub", 32, g_ssub),
         fl("cut", 1, []), fl("cut", 2, ["-o"]), fl("cut", 3, ["-x"]),
         ("template", 4, g_template),
         fl("reorder", 5, []), fl("reorder", 6, ["-e"]),
@@ -975,7 +998,7 @@ def run(ctx):
     ctx.assumptions = ["regex forms (-r), flatten/unflatten, json-stringify/json-parse, case, unspace, sub/gsub/ssub, sec2gmt on numbers are not modelled in Coq",
                        "multi-byte --nested-fs is not modelled", "input records have pairwise distinct keys (reader invariant)"]
     forbidden_gate(ctx, ["Base", "C12"])
-    ok, why = check_props(ctx, "C12/Props.v", ["C12/Harness.vo", "C12/Proofs.vo", "C12/ProofsStream.vo", "C12/Regex.vo"])
+    ok, why = check_props(ctx, "C12/Props.v", ["C12/Harness.vo", "C12/Proofs.vo", "C12/ProofsStream.vo", "C12/Regex.vo", "C12/RegexLaws.vo", "C12/Model2.vo", "C12/ProofsFields.vo"])
     verbs = mk_cases(ctx)
     per = 100 if ctx.tier == "quick" else 400
     jobs = []
